@@ -24,7 +24,7 @@ def _work(args):
         return res.dump()
     except Exception:
         r = Result(prop)
-        r.crashes.append(f'item {item!r}: ' + traceback.format_exc(limit=6).replace('\n', ' | '))
+        r.crashes.append(f'item {item!r}: ' + ' | '.join(traceback.format_exc().strip().split('\n')[-7:]))
         return r.dump()
 
 
